@@ -21,7 +21,7 @@ Definition env_eqb (a b : envelope) : bool :=
   (e_key a =? e_key b) && (e_size a =? e_size b) && bytes_eqb (e_sha a) (e_sha b) &&
   bytes_eqb (e_checksum a) (e_checksum b).
 Definition resp_eqb (a b : response) : bool :=
-  (p_status a =? p_status b) && opt_eqb env_eqb (p_env a) (p_env b).
+  (p_status a =? p_status b) && opt_eqb env_eqb (p_env a) (p_env b) && (p_s3 a =? p_s3 b).
 Definition obj_eqb (a b : Z * blob) : bool := (fst a =? fst b) && list_eqb chunk_eqb (snd a) (snd b).
 
 (* insertion sort of the model's objects by key id *)
